@@ -83,20 +83,20 @@ Section SYProofs.
 
   Lemma pops_pending o e top : op_tok tbl o e -> llevel e <= 2 * en_prec top -> pops e top = true.
   Proof.
-    intros Ho. pose proof (tok_assoc TOK Ho) as Hne. unfold llevel, rassoc, pops.
+    intros Ho. pose proof (@tok_assoc TOK o e Ho) as Hne. unfold llevel, rassoc, pops.
     destruct (Z.ltb_spec 0 (en_assoc e)); destruct (Z.ltb_spec (en_assoc e) 0);
       destruct (Z.leb_spec (en_prec e) (en_prec top)); destruct (Z.ltb_spec (en_prec e) (en_prec top));
-      cbn; intros HH; try reflexivity; lia.
+      cbn [andb orb]; intros HH; try reflexivity; lia.
   Qed.
 
   Lemma not_pops_open o e o' e' : op_tok tbl o e -> op_tok tbl o' e' -> rlevel e' <= 2 * en_prec e -> pops e e' = false.
   Proof.
-    intros Ho Ho' H. pose proof (tok_assoc TOK Ho) as Hne.
-    assert (Hsame : en_prec e = en_prec e' -> rassoc e = rassoc e') by (apply (tok_same TOK Ho Ho')).
+    intros Ho Ho' H. pose proof (@tok_assoc TOK o e Ho) as Hne.
+    assert (Hsame : en_prec e = en_prec e' -> rassoc e = rassoc e') by (apply (@tok_same TOK o e o' e' Ho Ho')).
     unfold rlevel, rassoc, pops in *. revert H Hsame.
     destruct (Z.ltb_spec 0 (en_assoc e')); destruct (Z.ltb_spec 0 (en_assoc e)); destruct (Z.ltb_spec (en_assoc e) 0);
       destruct (Z.leb_spec (en_prec e) (en_prec e')); destruct (Z.ltb_spec (en_prec e) (en_prec e'));
-      cbn; intros HH HS; try reflexivity; try lia;
+      cbn [andb orb]; intros HH HS; try reflexivity; try lia;
       (assert (E : en_prec e = en_prec e') by lia; specialize (HS E); discriminate).
   Qed.
 
@@ -107,8 +107,8 @@ Section SYProofs.
     intros Ho. induction pend as [|p pend IH]; cbn [app]; intros Hp Hst.
     - destruct st as [|top st]; cbn; [reflexivity|]. destruct Hst as [->|(e' & He' & Hl & _)].
       + now rewrite (tok_lparen TOK).
-      + destruct He' as [Hl' Hf']. rewrite Hl'. now rewrite (not_pops_open Ho (conj Hl' Hf') Hl).
-    - inversion Hp as [|? ? (te & Hte & Hlv) Hp']; subst. cbn. rewrite Hte, (pops_pending Ho Hlv), IH; auto.
+      + destruct He' as [Hl' Hf']. rewrite Hl'. now rewrite (@not_pops_open o e top e' Ho (conj Hl' Hf') Hl).
+    - inversion Hp as [|? ? (te & Hte & Hlv) Hp']; subst. cbn. rewrite Hte, (@pops_pending o e te Ho Hlv), IH; auto.
   Qed.
 
   Lemma pop_until_lparen_pend pend st : Forall in_tbl pend -> pop_until_lparen (pend ++ "(" :: st) = (pend, "(" :: st).
@@ -166,7 +166,7 @@ Section SYProofs.
 
   Lemma run_words ws out st : Forall (operand tbl) ws -> run tbl ws (out, st) = Ok (out ++ ws, st).
   Proof.
-    revert out; induction ws as [|w ws IH]; intros out H; cbn; [now rewrite app_nil_r|].
+    revert out; induction ws as [|w ws IH]; intros out H; cbn [run]; [now rewrite app_nil_r|].
     inversion H; subst. rewrite step_operand by assumption. rewrite IH by assumption. now rewrite <- app_assoc.
   Qed.
 
@@ -192,15 +192,15 @@ Section SYProofs.
     apply SPrints_mut.
     - (* leaf *) intros lvl ws Hws out st Hst. exists ws, []. cbn. rewrite run_words, !app_nil_r by assumption. auto.
     - (* leaf ending in a function name *) intros lvl ws f e Hws Hf Hl out st Hst.
-      exists ws, [f]. rewrite run_app, run_words by assumption. cbn [run]. rewrite (step_fn _ _ Hf).
+      exists ws, [f]. rewrite run_app, run_words by assumption. cbn [run]. rewrite (@step_fn f e _ _ Hf).
       repeat split; auto. constructor; [|constructor]. exists e. destruct Hf. auto.
     - (* binary *) intros lvl o e l r tl tr Ho Hlvl Hl IHl Hr IHr out st Hst.
       assert (Hll : lvl <= llevel e) by (unfold llevel; destruct (rassoc e); lia).
       destruct (IHl out st) as (wl & pl & Rl & Fl & El); [eapply open_ok_mono; eauto|].
-      rewrite run_app, Rl. cbn [run]. rewrite (step_op _ _ Ho).
-      rewrite (pop_ops_pend Ho Fl); [|eapply open_ok_mono; [|exact Hst]; lia].
+      rewrite run_app, Rl. cbn [run]. rewrite (@step_op o e _ _ Ho).
+      rewrite (@pop_ops_pend o e pl st Ho Fl); [|eapply open_ok_mono; [|exact Hst]; lia].
       destruct (IHr ((out ++ wl) ++ pl) (o :: st)) as (wr & pr & Rr & Fr & Er).
-      { cbn. right. exists e. split; [exact Ho|]. split; [lia|]. eapply open_ok_mono; [|exact Hst].
+      { cbn [open_ok]. right. exists e. split; [exact Ho|]. split; [lia|]. eapply open_ok_mono; [|exact Hst].
         unfold rlevel; destruct (rassoc e); lia. }
       rewrite Rr. exists (wl ++ pl ++ wr), (pr ++ [o]). split; [|split].
       + f_equal. f_equal; [now rewrite !app_assoc|now rewrite <- app_assoc].
@@ -210,12 +210,12 @@ Section SYProofs.
         * constructor; [|constructor]. exists e. destruct Ho. auto.
       + cbn. rewrite <- El, <- Er. now rewrite <- !app_assoc.
     - (* prefix *) intros lvl o e x tx Ho Hra Hlvl Hx IHx out st Hst.
-      cbn [run]. rewrite (step_op _ _ Ho).
+      cbn [run]. rewrite (@step_op o e _ _ Ho).
       assert (Hpw : pop_ops tbl e st = ([], st)).
-      { apply (pop_ops_pend (pend := []) Ho); [constructor|]. eapply open_ok_mono; eauto. }
+      { apply (@pop_ops_pend o e [] st Ho); [constructor|]. eapply open_ok_mono; eauto. }
       rewrite Hpw, app_nil_r.
       destruct (IHx out (o :: st)) as (w & pend & R & F & E).
-      { cbn. right. exists e. split; [exact Ho|]. split; [unfold rlevel; rewrite Hra; lia|]. eapply open_ok_mono; eauto. }
+      { cbn [open_ok]. right. exists e. split; [exact Ho|]. split; [unfold rlevel; rewrite Hra; lia|]. eapply open_ok_mono; eauto. }
       rewrite R. exists w, (pend ++ [o]). split; [|split].
       + f_equal. f_equal. now rewrite <- app_assoc.
       + apply Forall_app; split.
@@ -223,24 +223,24 @@ Section SYProofs.
         * constructor; [|constructor]. exists e. destruct Ho. auto.
       + cbn. now rewrite app_assoc, E.
     - (* call *) intros lvl f e a ta args targs Hf Ha IHa Hargs IHargs out st Hst.
-      cbn [run]. rewrite (step_fn _ _ Hf). cbn [run]. rewrite step_lparen.
-      destruct (IHa out ("(" :: f :: st)) as (w & pend & R & F & E); [cbn; now left|].
+      cbn [run]. rewrite (@step_fn f e _ _ Hf). cbn [run]. rewrite step_lparen.
+      destruct (IHa out ("(" :: f :: st)) as (w & pend & R & F & E); [cbn [open_ok]; now left|].
       rewrite run_app, R.
       destruct (IHargs (out ++ w) (f :: st) pend (Forall_pend_in F)) as (w2 & pend2 & R2 & F2 & E2).
-      rewrite run_app, R2. cbn [run]. rewrite (step_rparen_call _ _ F2 Hf).
+      rewrite run_app, R2. cbn [run]. rewrite (@step_rparen_call _ pend2 f e st F2 Hf).
       exists (w ++ w2 ++ pend2 ++ [f]), []. cbn [app]. rewrite !app_nil_r. split; [|split; [constructor|]].
       + f_equal. f_equal. now rewrite <- !app_assoc.
       + cbn. rewrite <- E. rewrite <- (app_assoc w pend). f_equal.
         rewrite (app_assoc w2), E2. now rewrite <- app_assoc.
     - (* parentheses *) intros lvl t ts Ht IH out st Hst.
       cbn [run]. rewrite step_lparen.
-      destruct (IH out ("(" :: st)) as (w & pend & R & F & E); [cbn; now left|].
-      rewrite run_app, R. cbn [run]. rewrite (step_rparen_plain _ _ (Forall_pend_in F) Hst).
+      destruct (IH out ("(" :: st)) as (w & pend & R & F & E); [cbn [open_ok]; now left|].
+      rewrite run_app, R. cbn [run]. rewrite (@step_rparen_plain _ pend st lvl (Forall_pend_in F) Hst).
       exists (w ++ pend), []. cbn [app]. rewrite !app_nil_r, ?app_assoc. auto.
     - (* no more arguments *) intros out st0 pend0 H0. exists [], pend0. cbn. rewrite !app_nil_r. auto.
     - (* , argument … *) intros a ta args targs Ha IHa Hargs IHargs out st0 pend0 H0.
-      cbn [run]. rewrite (step_comma _ _ H0).
-      destruct (IHa (out ++ pend0) ("(" :: st0)) as (wa & penda & Ra & Fa & Ea); [cbn; now left|].
+      cbn [run]. rewrite (@step_comma _ pend0 st0 H0).
+      destruct (IHa (out ++ pend0) ("(" :: st0)) as (wa & penda & Ra & Fa & Ea); [cbn [open_ok]; now left|].
       rewrite run_app, Ra.
       destruct (IHargs ((out ++ pend0) ++ wa) st0 penda (Forall_pend_in Fa)) as (w' & pend & R' & F' & E').
       rewrite R'. exists (pend0 ++ wa ++ w'), pend. split; [|split; [exact F'|]].
@@ -274,3 +274,68 @@ Proof. apply table_okb_ok. vm_compute. reflexivity. Qed.
 
 Theorem sy_complete_op_table t ts : SPrints op_table 0 t ts -> infix_to_postfix op_table ts = Ok (spostfix t).
 Proof. apply sy_complete. exact op_table_ok. Qed.
+
+(* ================= the tokeniser (Function.format_infix + split) on rule-antecedent text ================= *)
+Lemma append_empty_r s : String.append s "" = s.
+Proof. induction s as [|c s IH]; cbn; [reflexivity|now rewrite IH]. Qed.
+Lemma append_assoc' a b c : String.append (String.append a b) c = String.append a (String.append b c).
+Proof. induction a as [|x a IH]; cbn; [reflexivity|now rewrite IH]. Qed.
+
+Lemma find_none_all {A} (f : A -> bool) l : (forall x, In x l -> f x = false) -> find f l = None.
+Proof. induction l as [|a l IH]; cbn; [reflexivity|]. intros H. rewrite (H a) by now left. apply IH. intros x Hx. apply H. now right. Qed.
+
+Section Tokeniser.
+  Variable keys : list string.
+  (* every key starts with a character that is neither a blank nor allowed in names; "(" and ")" are keys that win *)
+  Definition keys_okb : bool :=
+    forallb (fun k => match k with String c _ => negb (name_char c) && negb (blank_char c) | EmptyString => true end) keys.
+  Hypothesis KOK : keys_okb = true.
+  Hypothesis key_lparen : forall text, first_match keys (String "("%char text) = Some "(".
+  Hypothesis key_rparen : forall text, first_match keys (String ")"%char text) = Some ")".
+
+  Lemma first_match_none c s : name_char c = true \/ blank_char c = true -> first_match keys (String c s) = None.
+  Proof.
+    intros Hc. unfold first_match. apply find_none_all. intros k Hk.
+    unfold keys_okb in KOK. rewrite forallb_forall in KOK. specialize (KOK _ Hk).
+    destruct k as [|c' r]; [reflexivity|]. cbn. destruct (ascii_dec c' c) as [->|NE]; [|reflexivity].
+    apply andb_true_iff in KOK as [K1 K2]. apply negb_true_iff in K1, K2. destruct Hc; congruence.
+  Qed.
+
+  Lemma scan_blanks ws rest : blanks ws -> scan keys (String.append ws rest) 0 "" = scan keys rest 0 "".
+  Proof.
+    unfold blanks. induction ws as [|c ws IH]; cbn [String.append list_ascii_of_string forallb]; [reflexivity|].
+    intros H. apply andb_true_iff in H as [Hc Hws]. cbn [scan]. rewrite first_match_none by (now right).
+    change (is_space c) with (blank_char c). rewrite Hc. cbn [emit String.eqb]. now apply IH.
+  Qed.
+
+  Lemma scan_name w text cur : forallb name_char (list_ascii_of_string w) = true ->
+    scan keys (String.append w text) 0 cur = scan keys text 0 (String.append cur w).
+  Proof.
+    revert cur. induction w as [|c w IH]; intros cur; cbn [String.append list_ascii_of_string forallb].
+    - intros _. now rewrite append_empty_r.
+    - intros H. apply andb_true_iff in H as [Hc Hw]. cbn [scan]. rewrite first_match_none by (now left).
+      change (is_space c) with (blank_char c).
+      assert (Hb : blank_char c = false) by (unfold name_char in Hc; apply andb_true_iff in Hc as [Hc _]; now apply negb_true_iff in Hc).
+      rewrite Hb. rewrite IH by assumption. now rewrite append_assoc'.
+  Qed.
+
+  Lemma scan_boundary text w : boundary text -> scan keys text 0 w = emit w (scan keys text 0 "").
+  Proof.
+    destruct text as [|c t]; cbn [boundary]; [intros _; cbn; now destruct (String.eqb w "")|].
+    intros [Hb|[->| ->]].
+    - cbn [scan]. rewrite first_match_none by (now right). change (is_space c) with (blank_char c). rewrite Hb. reflexivity.
+    - cbn [scan]. rewrite key_lparen. reflexivity.
+    - cbn [scan]. rewrite key_rparen. reflexivity.
+  Qed.
+
+  Theorem scan_spelled toks text : Spells toks text -> scan keys text 0 "" = toks.
+  Proof.
+    induction 1 as [ws Hws|ws rest text Hws _ IH|ws rest text Hws _ IH|ws w rest text Hws Hw Hb _ IH].
+    - rewrite <- (append_empty_r ws), scan_blanks by assumption. reflexivity.
+    - rewrite scan_blanks by assumption. cbn [String.append scan]. rewrite key_lparen. cbn. now rewrite IH.
+    - rewrite scan_blanks by assumption. cbn [String.append scan]. rewrite key_rparen. cbn. now rewrite IH.
+    - rewrite scan_blanks by assumption. destruct w as [|c w]; [discriminate|]. cbn [name_ok] in Hw.
+      rewrite scan_name by assumption. cbn [String.append]. rewrite scan_boundary by assumption. cbn [emit String.eqb].
+      now rewrite IH.
+  Qed.
+End Tokeniser.
